@@ -1,6 +1,6 @@
 (* C02 — Rejections report every violation once, at its location in the input. *)
 From Coq Require Import List String ZArith Bool Sorted Permutation.
-From AV Require Import Core.Json Core.Errors Deser.Model Deser.Unfold Deser.ErrorsProofs.
+From AV Require Import Core.Json Core.Errors Core.Text Deser.Model Deser.Unfold Deser.ErrorsProofs Deser.ObjErrors.
 Import ListNotations.
 
 (* the array loop (lists, sets, variadic tuples): the children of the rejection are EXACTLY the failing elements,
@@ -46,3 +46,38 @@ Theorem C02_children_in_key_order :
   forall (A : Type) (l : list (ekey * A)), LocallySorted key_le (sort_by_key l) /\ Permutation (sort_by_key l) l.
 Proof. intros A l. split; [exact (sort_by_key_sorted l)|exact (sort_by_key_perm l)]. Qed.
 Print Assumptions C02_children_in_key_order.
+
+(* OBJECTS (ObjectMethod): the children of the rejection are EXACTLY, in declaration order, one entry per field whose value is
+   rejected (under the external name, carrying that field's own error), per missing required field, per field required by a
+   present one (dependent_required) -- followed by one entry per unexpected property when additional properties are refused
+   (the implementation only looks for them when len(data) differs from the number of fields found: `differ`); the messages
+   are those of the violated object constraints.  (A crash / fuel exhaustion of a field method is excluded: C03.) *)
+Theorem C02_object_children_exact :
+  forall u o fuel cid c cs fs aliases addprops td kvs e,
+  exec u o fuel (MObj cid c cs fs aliases addprops td) (PDict kvs) = RErr e ->
+  (forall st, snd (obj_loop (exec u o fuel) kvs fs) = Some st -> False) ->
+  let extra := filter (fun kv => negb (existsb (String.eqb (fst kv)) aliases)) kvs in
+  let differ := negb (Nat.eqb (List.length kvs) (List.length (filter (field_present kvs) fs))) in
+  e = VE (match validate_constraints (PDict kvs) cs [] with Some (VE ms _) => ms | None => [] end)
+         (flat_map (field_errs (exec u o fuel) kvs) fs
+          ++ (if (differ && negb addprops)%bool then map (fun kv => (KStr (fst kv), err_msg msg_unexpected)) extra else [])).
+Proof. exact obj_errors_exact. Qed.
+Print Assumptions C02_object_children_exact.
+
+Theorem C02_object_no_hiding :
+  forall u o fuel cid c cs fs aliases addprops td kvs e name alias fm reqby x ef,
+  exec u o fuel (MObj cid c cs fs aliases addprops td) (PDict kvs) = RErr e ->
+  (forall st, snd (obj_loop (exec u o fuel) kvs fs) = Some st -> False) ->
+  In (MF name alias fm true reqby false) fs -> dict_get alias kvs = Some x -> exec u o fuel fm x = RErr ef ->
+  In (KStr alias, ef) (children_of e).
+Proof. exact obj_no_hiding. Qed.
+Print Assumptions C02_object_no_hiding.
+
+Theorem C02_missing_required_field_reported :
+  forall u o fuel cid c cs fs aliases addprops td kvs e name alias fm reqby fb,
+  exec u o fuel (MObj cid c cs fs aliases addprops td) (PDict kvs) = RErr e ->
+  (forall st, snd (obj_loop (exec u o fuel) kvs fs) = Some st -> False) ->
+  In (MF name alias fm true reqby fb) fs -> dict_get alias kvs = None ->
+  In (KStr alias, err_msg msg_missing) (children_of e).
+Proof. exact obj_missing_reported. Qed.
+Print Assumptions C02_missing_required_field_reported.
